@@ -373,6 +373,10 @@ func (p *Parser) parseBuffer(buf []byte, last bool) (err error) {
 					}
 				case 't':
 					p.addToken(off)
+					if p.mode == colonMap {
+						// The token is a key with no value.
+						return p.byteError(off, p.mode, b, rune(b))
+					}
 				}
 			}
 			p.starts = p.starts[0:depth]
@@ -534,20 +538,11 @@ func (p *Parser) parseBuffer(buf []byte, last bool) (err error) {
 		case tokenOk:
 			p.tmp = append(p.tmp, b)
 		case tokenSpc:
+			// Any byte that is not part of a token ends the token. The
+			// byte is then looked at again in the mode the token left
+			// just as it is on the fast path of tokenStart.
 			p.addToken(off)
-		case tokenColon:
-			p.addToken(off)
-			p.mode = valueMap
-		case tokenNlColon:
-			p.addToken(off)
-			p.line++
-			p.noff = off
-			for i, b = range buf[off+1:] {
-				if spaceMap[b] != skipChar {
-					break
-				}
-			}
-			off += i
+			off--
 		case valPlus:
 			p.mode = plusMap
 			// Store additional state (plus) to be used later in addString()
